@@ -72,7 +72,11 @@ def generate(seed: int, tier: str):
         layouts.append({"kind": kind, "chunks": ch, "style": style})
     thin = bool(picker != "zncc" and min(shape) < 20)
     return {"property": PROPERTY, "seed": seed, "thin": thin, "picker": picker, "shape": shape, "scale": scale, "R": R, "n": n, "min_sep": min_sep, "margin": margin, "tb": tb,
-            "dtype": rng.choice(["float32", "float32", "float64", "int16", "uint8"]) if picker != "zncc" else rng.choice(["float32", "float64"]),
+            "dtype": rng.choice(["float32", "float32", "float64", "int16", "uint8"]) if picker != "zncc" else rng.choice(["float32", "float64", "uint16", "float32"]),
+            # detector counts: a background level far above the contrast (all pickers are offset invariant on paper)
+            # (template matching only: LoG/DoG threshold at exactly 0, so on a non-zero background float rounding noise of the
+            #  filter becomes "maxima"; the property speaks of an image containing particles, not of background invariance)
+            "offset": rng.choice([0.0, 0.0, 30.0, 300.0]) if picker == "zncc" else 0.0,
             "frac": rng.random() < 0.5, "cut": rng.random() < 0.5, "data_seed": rng.randrange(1 << 30), "noise": 0.0,
             "sig_ratio": rng.choice([1.5, 1.6, 2.0]), "rot_set": rng.choice(["none", "z90", "z90"]), "min_score": 0.5,
             "layouts": layouts, "knobs": W.gen_knobs(rng), "schedule": gen_schedule(rng),
@@ -144,10 +148,14 @@ def build_image(sc):
         for p in pts:
             img += hann(shape, p, sc["R"], amp=float(rg.uniform(0.6, 1.5)))
     dt = np.dtype(sc["dtype"])
+    off = float(sc.get("offset", 0.0))
     if dt.kind in "iu":
-        img = np.round(img * 100).astype(dt)
+        gain = 100.0
+        if dt == np.uint8:
+            off = min(off, 0.3)  # 8 bits: keep the particle inside the range
+        img = np.round((img + off) * gain).astype(dt)
     else:
-        img = img.astype(dt)
+        img = (img + off).astype(dt)
     return img, np.array(pts, dtype=np.float64).reshape(-1, 3), rots, tmpl
 
 
